@@ -162,6 +162,14 @@ func Main(prop string) {
 		}
 	})
 
+	// (2b) long paragraphs cut into more than 100 runs
+	nLarge := run.Pick(3000, 60000)
+	vrun.ParallelChunks(nLarge, 0, func(lo, hi, worker int) {
+		for i := lo; i < hi; i++ {
+			guarded(worker, LargeCase(gen.New(run.Seed, "wrap/large", i)))
+		}
+	})
+
 	// (3) real shaped paragraphs
 	nReal := run.Pick(6000, 200000)
 	vrun.ParallelChunks(nReal, 0, func(lo, hi, worker int) {
@@ -184,7 +192,7 @@ func Main(prop string) {
 	run.Finish(vrun.Level{
 		Level: "exploration",
 		Rule: "cases: (1) exhaustive small scope: every text of length<=" + fmt.Sprint(maxLen) + " over {a,SP,HY,LF,CM,ID} x every cluster partition x every run split x direction patterns x both paragraph directions x every width 0..total+1 x 3 policies x TruncateAfterLines 0..2; " +
-			"(2) random synthetic paragraphs (length<=24, 13-letter alphabet, multi-glyph / multi-rune clusters, levels up to base+3, spacing, varying per-line widths, truncators, both iterators); (3) real multi-script paragraphs itemised by shaping.Segmenter and shaped by HarfbuzzShaper with corpus fonts. " +
+			"(2) random synthetic paragraphs (length<=24 plus long ones of 120-400 runes cut into up to 200 runs, 13-letter alphabet, multi-glyph / multi-rune clusters, levels up to base+3, spacing, varying per-line widths, truncators, both iterators); (3) real multi-script paragraphs itemised by shaping.Segmenter and shaped by HarfbuzzShaper with corpus fonts. " +
 			nontrivialRule(prop) + " distinct by hash of (text, run structure, config, widths)",
 		Assumptions: []string{
 			"break opportunities are those reported by segmenter.Segmenter (subject of C06)",
